@@ -142,7 +142,7 @@ class GR:
 
     def config(self, fl=None):
         r = self.r
-        return "iso=%d;tr=%s;fm=%s;fl=%s;loc=%s" % (r.randrange(2), r.choice(["none", "none", "upper", "pseudo"]),
+        return "iso=%d;tr=%s;fm=%s;fl=%s;loc=%s" % (r.randrange(2), r.choice(["none", "none", "upper", "pseudo", "bracket"]),
                                                     r.choice(["none", "none", "numbr", "strwrap"]),
                                                     fl or r.choice(["st", "st", "conc"]),
                                                     r.choice(["en", "en", "en-US", "pl", "ru", "ar", "fr", "cs", "lt", "ja", "xx", "pt", "pt-PT"]))
@@ -226,6 +226,9 @@ def arg_bomb_cases(rng):
                 yield "fmt %s a:%s %s %s:~:%s=s%s" % (cfg, hx(res), ",".join(FUNCS), hx("a%d" % depth), hx("x"), hx("X"))
 
 
+PLURAL_LOCALES = ["en", "en-US", "pl", "ru", "ar", "fr", "cs", "lt", "ja", "xx", "pt", "pt-PT", "pt-BR", "de", "uk", "sl", "cy", "ro", "sv"]
+
+
 def handwritten():
     """scenarios from the findings register and the property text"""
     progs = [
@@ -246,7 +249,19 @@ def handwritten():
     for (res, args) in progs:
         for iso in (0, 1):
             for fm in ("none", "numbr", "strwrap"):
-                for tr in ("none", "upper"):
+                for tr in ("none", "upper", "bracket"):
                     cfg = "iso=%d;tr=%s;fm=%s;fl=st;loc=en" % (iso, tr, fm)
                     reqs = ",".join("%s:~:%s" % (hx(m), args) for m in MSGS)
                     yield "fmt %s a:%s %s %s" % (cfg, hx(res), ",".join(FUNCS), reqs)
+    # plural matrix: every bundle locale of the generators x cardinal/ordinal/fraction-digit selects x small numbers,
+    # both bundle flavours (the lazily constructed PluralRules of either kind must exist for every locale)
+    pm = ("m0 = { $n ->\n [zero] z\n [one] o\n [two] t\n [few] f\n [many] m\n *[other] x\n }\n"
+          "m1 = { NUMBER($n, type: \"ordinal\") ->\n [zero] z\n [one] o\n [two] t\n [few] f\n [many] m\n *[other] x\n }\n"
+          "m2 = { NUMBER($n, minimumFractionDigits: 1) ->\n [one] o\n [few] f\n [many] m\n *[other] x\n }\n"
+          "m3 = { $o ->\n [one] o\n [two] t\n [few] f\n *[other] x\n }\n")
+    for loc in PLURAL_LOCALES:
+        for fl in ("st", "conc"):
+            for nn in ("i0", "i1", "i2", "i3", "i5", "i11", "i21", "t" + hx("1.5"), "t" + hx("1.0")):
+                cfg = "iso=0;tr=none;fm=none;fl=%s;loc=%s" % (fl, loc)
+                reqs = ",".join("%s:~:%s=%s&%s=%s" % (hx(m), hx("n"), nn, hx("o"), nn) for m in ("m0", "m1", "m2", "m3"))
+                yield "fmt %s a:%s %s %s" % (cfg, hx(pm), "NUMBER", reqs)
